@@ -4,8 +4,7 @@ set -u
 P=$(readlink -f "$1"); ID=$2; TIER=${3:-quick}
 cd /verif
 git -C /repo apply "$P" || { echo "patch does not apply"; exit 3; }
-./run $ID $TIER > /tmp/try_$ID.log 2>&1; rc=$?
+VERIF_EVIDENCE_DIR=/tmp/try_evidence ./run $ID $TIER > /tmp/try_$ID.log 2>&1; rc=$?
 git -C /repo checkout -- . 
-cp evidence/$ID.json /tmp/try_$ID.evidence.json 2>/dev/null
 grep -E "^(VIOLATION|KNOWN-FINDING|HARNESS-FAILURE|INCONCLUSIVE|\[C)" /tmp/try_$ID.log | head -${LINES_MAX:-12}
 echo "exit=$rc"
